@@ -30,8 +30,11 @@ def C03(s, known):
 
 
 def C14(s, known):
-    s.build()
+    s.build(need_inproc=True)
     s.model("CircleMC", workers=2)
+    if s.inproc_ok:
+        mi = s.drive("circle", binary=s.vinproc)
+        s.validate(mi, "C14Trace", known=known, shard=max(500, len_records(mi) // 12 + 1))
     m = s.drive("c14")
     s.validate(m, "C14Trace", known=known)
     return dict(level="model_checking",
@@ -40,8 +43,11 @@ def C14(s, known):
 
 
 def C15(s, known):
-    s.build()
+    s.build(need_inproc=True)
     s.model("TheoryMC", workers=4)
+    if s.inproc_ok:
+        md = s.drive("degree", binary=s.vinproc)
+        s.validate(md, "C15Trace", known=known, shard=1000)
     m = s.drive("c15")
     s.validate(m, "C15Trace", known=known)
     return dict(level="model_checking",
